@@ -476,7 +476,7 @@ def operator_table():
 # --------------------------------------------------------------------------------------
 
 def plan(tier, seed):
-    n = 1200 if tier == "quick" else 25000
+    n = 2000 if tier == "quick" else 25000
     shards = [{"kind": "table"}]
     for k in range(16):
         shards.append({"kind": "ann" if k % 2 == 0 else "expr", "seed": seed * 1000 + k, "n": n})
